@@ -120,6 +120,14 @@ func (x *Exec) callContract(call *ast.CallExpr, c *Contract, fn *types.Func, rec
 		o.ClauseText = r.Text
 		st.assume(g)
 	}
+	// termination: a call that can lead back to the function under contract must decrease the measure
+	if x.variant0 != nil && c.Variant != nil && x.w.canReach(c, x.contract) {
+		env := x.calleeEnv(c, st, nil, recv, args, nil)
+		m, _ := env.eval(c.Variant.Expr)
+		g := and(mk(SBool, "<", m, *x.variant0), mk(SBool, ">=", *x.variant0, intLit(0)))
+		o := x.emit(st, "termination", shortFn(fi.Name), g, x.contract.Props, "recursive call decreases the measure ("+x.contract.Variant.Text+") which is bounded below; callee measure: "+c.Variant.Text, pos)
+		o.ClauseText = x.contract.Variant.Text
+	}
 	// the callee may panic under its panics_if conditions: reaching that is an obligation of the caller
 	for _, pc := range c.PanicsIf {
 		env := x.calleeEnv(c, st, nil, recv, args, nil)
@@ -598,6 +606,13 @@ func VerifyFunc(w *World, c *Contract) (res *FuncResult) {
 	cover.MustFail = true
 	x.old = st.clone()
 	x.entrySt = x.old
+	x.variant0 = nil
+	if c.Variant != nil {
+		env := x.funcEnv(st)
+		env.old = nil
+		v, _ := env.eval(c.Variant.Expr)
+		x.variant0 = &v
+	}
 	x.bindParams(fr, fi, recvT, args, st)
 	fl := x.execBlock(fi.Body().List, st)
 	if fl.normal != nil {
@@ -959,6 +974,7 @@ func (x *Exec) checkExit(st *State, status Term, desc string, pos token.Pos) {
 	allowed := tFalse
 	for _, e := range c.ExitsIf {
 		env := x.funcEnv(st)
+		env.locals = true
 		allowed = or(allowed, x.specBool(env, e))
 	}
 	x.emit(st, "exit", "", allowed, c.Props, "process exit only where the contract permits: "+desc, pos)
@@ -987,4 +1003,59 @@ func (x *Exec) recordEvent(st *State, kind string, args []Term) {
 type event struct {
 	kind string
 	args []Term
+}
+
+// canReach reports whether, in the static call graph restricted to functions that carry a termination
+// measure, from can reach to (from == to counts: direct recursion).
+func (w *World) canReach(from, to *Contract) bool {
+	if w.recEdges == nil {
+		w.recEdges = map[*Contract][]*Contract{}
+		for _, c := range w.Contracts {
+			if c.Variant == nil || c.Fn == nil || c.Fn.Body() == nil || c.Fn.Pkg == nil {
+				continue
+			}
+			info := c.Fn.Pkg.TypesInfo
+			cc := c
+			ast.Inspect(c.Fn.Body(), func(n ast.Node) bool {
+				call, ok := n.(*ast.CallExpr)
+				if !ok {
+					return true
+				}
+				var id *ast.Ident
+				switch f := ast.Unparen(call.Fun).(type) {
+				case *ast.Ident:
+					id = f
+				case *ast.SelectorExpr:
+					id = f.Sel
+				}
+				if id == nil {
+					return true
+				}
+				if fn, ok := info.Uses[id].(*types.Func); ok {
+					if d := w.ByFunc[fn.Origin()]; d != nil && d.Variant != nil {
+						w.recEdges[cc] = append(w.recEdges[cc], d)
+					}
+				}
+				return true
+			})
+		}
+	}
+	seen := map[*Contract]bool{}
+	var dfs func(c *Contract) bool
+	dfs = func(c *Contract) bool {
+		if c == to {
+			return true
+		}
+		if seen[c] {
+			return false
+		}
+		seen[c] = true
+		for _, d := range w.recEdges[c] {
+			if dfs(d) {
+				return true
+			}
+		}
+		return false
+	}
+	return dfs(from)
 }
